@@ -204,7 +204,7 @@ void clean_up_locals () {
 
 void pop_n_locals (int num) {
   /* the grammar also counts declarations that add_local_name() refused */
-  if (num > current_number_of_locals)
+  if (num < 0 || num > current_number_of_locals) /* num < 0: the grammar's 8-bit counter wrapped (>= 128 declarations) */
     num = current_number_of_locals;
 #ifdef NEOLITH_VERIF
   VERIF_CTRACE ("local.pop_n", num, current_number_of_locals);
